@@ -196,7 +196,7 @@ func VerifDumpTParams(p *TransportParameters) string {
 		u.Z(int64(p.MaxIdleTimeout)), pa,
 		verifBytes(p.OriginalDestinationConnectionID.Bytes()), verifBytes(p.InitialSourceConnectionID.Bytes()),
 		rscid, srt, u.ZU(p.ActiveConnectionIDLimit), u.Z(int64(p.MaxDatagramFrameSize)),
-		u.B(p.EnableResetStreamAt), minad, co)
+		u.B(p.EnableResetStreamAt), minad, co, u.Z(int64(p.AdvertisedMaxIdleTimeout)))
 }
 
 // VerifTParamsEqual compares two parameter sets by value (the dump is canonical).
